@@ -15,6 +15,9 @@
 //!   {"k":"drop_handle","h":1}
 //! Output: {"id":..,"res":[..]} with one entry per op. A panic is data: {"panic": msg}.
 //! Values: null | int | {"f": float-as-string} | string | {"b": hex} | {"t": debug-string} for everything else.
+//!   (C11/C13) input also {"jsonb": hex} raw JSONB bytes, {"json": doc} a document built with JsonbBuilder, {"dec": [digits, scale]},
+//!   {"vec": [..]} elements may be strings ("NaN", "-0.0"); output {"jsonb": hex, "json": text | "json_err": msg}, {"dec": [digits, scale]};
+//!   "prepared" with times > 1 reports the earlier executions' results under "prev" in the last result.
 use crate::util::*;
 use serde_json::{json, Value};
 use std::path::Path;
@@ -33,7 +36,16 @@ pub fn val_to_json(v: &OwnedValue) -> Value {
         OwnedValue::Time(t) => json!({"time": t}),
         OwnedValue::Timestamp(t) => json!({"ts": t}),
         OwnedValue::Uuid(u) => json!({"uuid": u.iter().map(|x| format!("{:02x}", x)).collect::<String>()}),
-        OwnedValue::Jsonb(b) => json!({"jsonb": b.iter().map(|x| format!("{:02x}", x)).collect::<String>()}),
+        OwnedValue::Jsonb(b) => {
+            // raw bytes plus the document as JSON text ("json") or the decoder's failure ("json_err")
+            let hex = b.iter().map(|x| format!("{:02x}", x)).collect::<String>();
+            match guarded(|| turdb::records::JsonbView::new(b).and_then(|v| v.to_json_string())) {
+                Ok(Ok(t)) => json!({"jsonb": hex, "json": t}),
+                Ok(Err(e)) => json!({"jsonb": hex, "json_err": format!("{:#}", e)}),
+                Err(p) => json!({"jsonb": hex, "json_err": format!("panic: {p}")}),
+            }
+        }
+        OwnedValue::Decimal(d, sc) => json!({"dec": [d.to_string(), sc]}),
         other => json!({"t": format!("{:?}", other)}),
     }
 }
@@ -52,7 +64,8 @@ pub fn json_to_val(v: &Value) -> OwnedValue {
                 let s = b.as_str().unwrap();
                 OwnedValue::Blob((0..s.len() / 2).map(|i| u8::from_str_radix(&s[2 * i..2 * i + 2], 16).unwrap()).collect())
             } else if let Some(v) = o.get("vec") {
-                OwnedValue::Vector(v.as_array().unwrap().iter().map(|x| x.as_f64().unwrap() as f32).collect())
+                // elements: numbers, or strings for what JSON cannot carry ("NaN", "inf", "-0.0")
+                OwnedValue::Vector(v.as_array().unwrap().iter().map(|x| x.as_str().map(|s| s.parse::<f32>().unwrap()).or(x.as_f64().map(|f| f as f32)).unwrap()).collect())
             } else if let Some(d) = o.get("date") {
                 OwnedValue::Date(d.as_i64().unwrap() as i32)
             } else if let Some(d) = o.get("time") {
@@ -68,11 +81,82 @@ pub fn json_to_val(v: &Value) -> OwnedValue {
                 OwnedValue::Uuid(a)
             } else if let Some(b) = o.get("bool") {
                 OwnedValue::Bool(b.as_bool().unwrap())
+            } else if let Some(b) = o.get("jsonb") {
+                let s = b.as_str().unwrap();
+                OwnedValue::Jsonb((0..s.len() / 2).map(|i| u8::from_str_radix(&s[2 * i..2 * i + 2], 16).unwrap()).collect())
+            } else if let Some(doc) = o.get("json") {
+                // a JSON document bound the way an API user builds one: records::JsonbBuilder
+                OwnedValue::Jsonb(json_doc_to_jsonb(doc))
+            } else if let Some(d) = o.get("dec") {
+                OwnedValue::Decimal(d[0].as_str().unwrap().parse::<i128>().unwrap(), d[1].as_i64().unwrap() as i16)
             } else {
                 OwnedValue::Null
             }
         }
         _ => OwnedValue::Null,
+    }
+}
+
+/// structural dump of a catalog: one entry per table, sorted
+pub fn catalog_json(cat: &turdb::schema::Catalog) -> Value {
+    let mut out = vec![];
+    let mut schemas: Vec<_> = cat.schemas().iter().collect();
+    schemas.sort_by_key(|(n, _)| n.to_string());
+    for (sname, schema) in schemas {
+        let mut tables: Vec<_> = schema.tables().iter().collect();
+        tables.sort_by_key(|(n, _)| n.to_string());
+        if tables.is_empty() {
+            out.push(json!([sname, Value::Null, Value::Null, [], []]));
+        }
+        for (tname, t) in tables {
+            let cols: Vec<Value> = t
+                .columns()
+                .iter()
+                .map(|c| json!([c.name(), format!("{:?}", c.data_type()), c.constraints().iter().map(|k| format!("{:?}", k)).collect::<Vec<_>>(), c.default_value(), c.max_length()]))
+                .collect();
+            let mut idx: Vec<Value> = t
+                .indexes()
+                .iter()
+                .map(|i| json!([i.name(), i.columns().collect::<Vec<_>>(), i.is_unique(), format!("{:?}", i.index_type()), i.where_clause()]))
+                .collect();
+            idx.sort_by_key(|v| v[0].as_str().unwrap_or("").to_string());
+            out.push(json!([sname, tname, t.id(), cols, idx]));
+        }
+    }
+    Value::Array(out)
+}
+
+fn json_doc_to_jsonb(doc: &Value) -> Vec<u8> {
+    use turdb::records::{JsonbBuilder, JsonbBuilderValue};
+    fn conv(v: &Value) -> JsonbBuilderValue {
+        match v {
+            Value::Null => JsonbBuilderValue::Null,
+            Value::Bool(b) => JsonbBuilderValue::Bool(*b),
+            Value::Number(n) => JsonbBuilderValue::Number(n.as_f64().unwrap()),
+            Value::String(s) => JsonbBuilderValue::String(s.clone()),
+            Value::Array(a) => JsonbBuilderValue::Array(a.iter().map(conv).collect()),
+            Value::Object(o) => JsonbBuilderValue::Object(o.iter().map(|(k, v)| (k.clone(), conv(v))).collect()),
+        }
+    }
+    match conv(doc) {
+        JsonbBuilderValue::Null => JsonbBuilder::new_null().build(),
+        JsonbBuilderValue::Bool(b) => JsonbBuilder::new_bool(b).build(),
+        JsonbBuilderValue::Number(n) => JsonbBuilder::new_number(n).build(),
+        JsonbBuilderValue::String(s) => JsonbBuilder::new_string(s).build(),
+        JsonbBuilderValue::Array(a) => {
+            let mut b = JsonbBuilder::new_array();
+            for e in a {
+                b.push(e);
+            }
+            b.build()
+        }
+        JsonbBuilderValue::Object(o) => {
+            let mut b = JsonbBuilder::new_object();
+            for (k, v) in o {
+                b.set(k, v);
+            }
+            b.build()
+        }
     }
 }
 
@@ -157,7 +241,11 @@ impl Session {
                 let ps: Vec<OwnedValue> = op["params"].as_array().unwrap().iter().map(json_to_val).collect();
                 let times = op["times"].as_u64().unwrap_or(1);
                 let mut last = Value::Null;
-                for _ in 0..times {
+                let mut prev: Vec<Value> = Vec::new(); // results of the earlier executions (times > 1), reported as "prev"
+                for round in 0..times {
+                    if round > 0 {
+                        prev.push(last.clone());
+                    }
                     if ps.is_empty() {
                         return json!({"err": "prepared without parameters is not driven"});
                     }
@@ -176,6 +264,11 @@ impl Session {
                             Err(e) => json!({"err": format!("{:#}", e)}),
                         }
                     };
+                }
+                if !prev.is_empty() {
+                    if let Some(o) = last.as_object_mut() {
+                        o.insert("prev".to_string(), Value::Array(prev));
+                    }
                 }
                 last
             }
@@ -217,6 +310,16 @@ impl Session {
                 match db.checkpoint() {
                     Ok(i) => json!({"ok": {"type": "checkpoint", "n": i.frames_checkpointed}}),
                     Err(e) => json!({"err": format!("{:#}", e)}),
+                }
+            }
+            "catalog" => {
+                // the catalog as it is on disk now: CatalogPersistence::load of <dir>/turdb.catalog (C40)
+                let path = self.dir.join("turdb.catalog");
+                let mut cat = turdb::schema::Catalog::new();
+                match guarded(|| turdb::schema::persistence::CatalogPersistence::load(&path, &mut cat)) {
+                    Err(p) => json!({"panic": p}),
+                    Ok(Err(e)) => json!({"err": format!("{:#}", e)}),
+                    Ok(Ok(())) => json!({"rows": catalog_json(&cat)}),
                 }
             }
             "ls" => {
